@@ -8,7 +8,7 @@ META = {
     "level": "exploration",
     "rule": ("a real logged-on connection (both roles) is fed one frame at a time by a scripted adversarial peer; alphabet relative to the "
              "connection's own expected number E: type in {app, Heartbeat, TestRequest, ResendRequest, GapFill, Reset} x "
-             "MsgSeqNum in {E-1,E,E+1,E+4} x PossDupFlag x NewSeqNo in {s+1,s+3,E-1}; start states ACTIVE, RESENDREQ_AWAITING via a real gap, ACTIVE with an application handler that raises, "
+             "MsgSeqNum in {E-1,E,E+1,E+4} x PossDupFlag x NewSeqNo in {s+1,s+3,E-1}; start states ACTIVE, RESENDREQ_AWAITING via a real gap, ACTIVE with an application handler that raises, ACTIVE with a journal that refuses every second inbound write, "
              "and after a too-high Logon; exhaustive over all histories of length 3 (quick) / 4 (thorough) of a 24-symbol alphabet plus random "
              "histories of length 6-14 over 40 symbols; after every frame the monitor checks R1 delivery only at E and once, R2 E moves by +1 / "
              "to an honoured forward NewSeqNo / never backwards / a delivered number is consumed, R3 exactly one ResendRequest(BeginSeqNo=E) "
@@ -25,11 +25,11 @@ A24 = ([("app", r, pd, None) for r in (-1, 0, 1, 4) for pd in ("N", "Y")] +
        [("hb", r, "N", None) for r in (0, 1)] + [("tr", r, "N", None) for r in (0, 1)] +
        [("gf", r, "Y", n) for r in (-1, 0, 1) for n in ("s+1", "s+3")] +
        [("rs", r, "N", n) for r in (0, 1) for n in ("s+3", "E-1")] +
-       [("rr", 0, "N", None), ("rr", 1, "N", None)])
+       [("rr", 0, "N", None), ("rr", 1, "N", None), ("rrx", 0, "N", None)])
 A40 = A24 + ([("hb", r, pd, None) for r in (-1, 4) for pd in ("N", "Y")] + [("tr", -1, "N", None), ("tr", 4, "N", None)] +
              [("gf", r, "N", n) for r in (0, 1) for n in ("s+1", "s+3")] + [("gf", 0, "Y", "E-1"), ("gf", 4, "Y", "s+3")] +
              [("rs", -1, "N", "s+3"), ("rs", 4, "N", "s+3"), ("rs", 0, "Y", "s+1"), ("app", 2, "N", None)])
-STARTS = ["active", "awaiting", "active-handler-raises", "logon-too-high"]
+STARTS = ["active", "awaiting", "active-handler-raises", "active-journal-write-fails", "logon-too-high"]
 
 
 def plan(tier, seed):
@@ -68,6 +68,21 @@ async def run_history(acc, clock, role, start, syms, cid):
     try:
         if role == "initiator":
             await ep.send_msg(FIXMessage("A", {98: 0, 108: 30}))
+        if start == "active-journal-write-fails":
+            # the journal refuses every second inbound write (a locked or full database): the library logs it; what was handed to
+            # the application stays consumed
+            import sqlite3 as _sq
+            from asyncfix.message import MessageDirection as _D
+            real_persist = j.persist_msg
+            state_ = {"n": 0}
+
+            def flaky(msg, session, direction, _real=real_persist):
+                if direction == _D.INBOUND:
+                    state_["n"] += 1
+                    if state_["n"] % 2 == 0:
+                        raise _sq.OperationalError("database is locked")
+                return _real(msg, session, direction)
+            j.persist_msg = flaky
         if start == "active-handler-raises":
             # the application's on_message raises on every message (after the harness recorded the delivery): the library logs it;
             # the message was handed over, so it must count as consumed like any other
@@ -127,6 +142,9 @@ async def run_history(acc, clock, role, start, syms, cid):
                 fr = peer.frame("1", s, [(112, ident)], possdup=pdup)
             elif t == "rr":
                 fr = peer.frame("2", s, [(7, 1), (16, 0)], possdup=pdup)
+            elif t == "rrx":
+                # a ResendRequest for a range this side never sent (the library ignores it): it must not disturb the inbound side
+                fr = peer.frame("2", s, [(7, ep._session.next_num_out + 3 + cnt % 2), (16, 0)], possdup=pdup)
             elif t == "gf":
                 fr = peer.frame("4", s, [(123, "Y"), (36, new)], possdup=pdup)
                 nontrivial = True
@@ -253,7 +271,7 @@ def run_shard(spec, acc):
 
     async def go(clock):
         idx = 0
-        for start in STARTS[:3] if spec["exh_len"] <= 3 else STARTS:
+        for start in STARTS[:4] if spec["exh_len"] <= 3 else STARTS:
             for syms in itertools.product(range(len(A24)), repeat=spec["exh_len"]):
                 idx += 1
                 if idx % nsh != shard:
